@@ -44,6 +44,37 @@ Proof.
     unfold covered at 2. cbn [existsb]. unfold covers at 2. rewrite Bool.negb_orb. reflexivity.
 Qed.
 
+(* every piece ends at its region's end or earlier: a request never reaches beyond the region it is sent to *)
+Definition clipped (be : nat -> list N -> list N) (p : list N * list N) : Prop :=
+  exists j, snd p = be j (fst p) \/ end_reached (snd p) (be j (fst p)) = true.
+Lemma partition_clipped be fuel : forall i key e l, partition be fuel i key e = Some l -> forall p, In p l -> clipped be p.
+Proof.
+  induction fuel as [|f IH]; intros i key e l; cbn [partition]; [discriminate|].
+  destruct (end_reached e (be i key)) eqn:E.
+  - intros [= <-] p [<-|[]]. exists i. right. exact E.
+  - destruct (partition be f (S i) (be i key) e) as [l'|] eqn:P; [|discriminate]. intros [= <-] p [<-|Hin].
+    + exists i. left. reflexivity.
+    + eapply IH; eassumption.
+Qed.
+Lemma run_on_range_clipped be fuel s e l : run_on_range be fuel s e = Some l -> forall p, In p l -> clipped be p.
+Proof.
+  unfold run_on_range. destruct (empty_range s e); [intros [= <-] p []|apply partition_clipped].
+Qed.
+Lemma all_pieces_clipped re fuel : forall subs pieces, all_pieces re fuel subs = Some pieces -> forall p, In p pieces -> clipped re p.
+Proof.
+  induction subs as [|sub rest IH]; intros pieces H p Hin; cbn [all_pieces] in H.
+  - injection H as <-. destruct Hin.
+  - unfold delete_handler_pieces in H. destruct (run_on_range re fuel (fst sub) (snd sub)) as [a|] eqn:Ea; [|discriminate].
+    destruct (all_pieces re fuel rest) as [b|] eqn:Eb; [|discriminate]. injection H as <-.
+    apply in_app_or in Hin as [Hin|Hin]; [eapply run_on_range_clipped; eassumption|eapply IH; [reflexivity|exact Hin]].
+Qed.
+Lemma delete_range_task_clipped be re fuel notify s e st st' pieces :
+  delete_range_task be re fuel notify s e st = Some (st', pieces) -> forall p, In p pieces -> clipped re p.
+Proof.
+  unfold delete_range_task. destruct (run_on_range be fuel s e) as [subs|]; [|discriminate].
+  destruct (all_pieces re fuel subs) as [ps|] eqn:Ep; [|discriminate]. intros [= _ <-]. eapply all_pieces_clipped; exact Ep.
+Qed.
+
 Section Del.
   Variables batch_end region_end : nat -> list N -> list N.
   Hypothesis batch_end_after : forall i k, batch_end i k = [] \/ lex_lt k (batch_end i k).
